@@ -97,7 +97,7 @@ def utf8_encode(I, ch):
     return [ex(20, 18, (0b11110, 5)), ex(17, 12, (0b10, 2)), ex(11, 6, (0b10, 2)), ex(5, 0, (0b10, 2))]
 
 
-@model(r'^Vec::<.*>::(sort_by|sort|sort_unstable|sort_by_key|dedup|reverse)(?:::<.*>)?$|^core::slice::<impl \[.*\]>::(sort_by|sort|reverse)(?:::<.*>)?$')
+@model(r'^Vec::<.*>::(sort_by|sort|sort_unstable|sort_by_key|dedup|reverse)(?:::<.*>)?$|^(?:core|std)::slice::<impl \[.*\]>::(sort_by|sort|reverse)(?:::<.*>)?$')
 def m_vec_sort(I, fr, callee, m, args):
     op = m.group(1) or m.group(2)
     s = as_slice(I, args[0])
